@@ -1,5 +1,6 @@
 import CedarVerif.Driver.CodecSchema
 import CedarVerif.Cedar.Manifest
+import CedarVerif.Lemmas.ManifestCheck
 /-
 Driver ops of C17 (entity manifests):
   (manifest <schema> (rt "P" uid "R") <texpr>*)            → canonical trie | (unsupported) | (partial) | (mismatched) | (panic)
@@ -11,6 +12,9 @@ Driver ops of C17 (entity manifests):
             (`ty` in the grammar of CodecSchema.lean, or `untyped`)
   rtrie ::= (rtrie (root trie)*)          root ::= (var principal|action|resource|context) | (lit uid)
   trie  ::= (trie anc|noanc (children ("k" trie)*) rtrie)
+  (mspec <schema> (rt …) <rtrie> <req> <entities>)          → (spec ok) | (spec FAILED …)
+        the model's slice checked against the specification used by Thm/C17.lean (`subStoreB`, `coverRootsB`: sound
+        checkers for `SubStore` / `CoverRoots`, Lemmas/ManifestCheck.lean) — samples the unproved `SlicerMeetsSpec`
 Canonical printing sorts roots and children by their printed form.
 -/
 namespace CedarVerif.Ops.ManifestOps
@@ -154,6 +158,20 @@ def handleManifest (x : Sexp) : Option String :=
             | .error .incompatible => "(error incompatible)"
             | .error (.panic _) => "(panic)")
     | _, _, _, _ => some "(bad-op)"
+  | .list [.atom "mspec", s, rt, trie, req, ents] =>
+    match decSchema s, decReqType rt, decRTrie trie, decRequest req, decEntities ents with
+    | some s, some rt, some t, some req, some ents =>
+      some (match toTypedRoots s rt t with
+        | .error e => encMErr e
+        | .ok t =>
+          match sliceFault t req ents with
+          | some _ => "(spec fault)"
+          | none =>
+            let es' := sliceStorePure t req ents
+            let a := subStoreB ents es'
+            let b := coverRootsB ents es' req t
+            if a && b then "(spec ok)" else s!"(spec FAILED substore={a} cover={b})")
+    | _, _, _, _, _ => some "(bad-op)"
   | _ => none
 
 end CedarVerif.Ops.ManifestOps
